@@ -109,3 +109,38 @@ Example C04_hypotheses_satisfiable :
   script_check [] (script Fixed (enc_new ex1_sys ex_nm) 0 2) = true /\
   is_initial_b ex1_sys (init_seq ex1_sys env0) = true.
 Proof. exact ex1_hypotheses. Qed.
+
+(** Second proposed repair (patches/0002; [Encoding.init_at2] / [script2]): [init_at 0] defines a
+    signal used by init expressions right before the first state whose init expression needs it.
+    The script consists of the same commands as [script Fixed]; it is accepted as soon as every
+    init expression reads EARLIER states only ([inits_read_earlier]) - a shared init sub-term may
+    now read a state (finding use-before-declare:init-signal-reads-state) - and it is faithful. *)
+From Patronus Require Import EncodingWf2 EncodingTheorems2.
+Theorem C04_script2_wf :
+  forall (sy : sys) (nm : expr -> string) (n : nat),
+    sys_wf sy = true -> names_ok (enc_new sy nm) = true -> inits_read_earlier (enc_new sy nm) ->
+    script_check [] (script2 (enc_new sy nm) n) = true.
+Proof. exact script2_wf_sys. Qed.
+Print Assumptions C04_script2_wf.
+
+Theorem C04_script2_faithful :
+  forall (sy : sys) (nm : expr -> string) (rho0 : env) (frees : list env) (sigma0 : env),
+    sys_wf sy = true -> names_ok (enc_new sy nm) = true -> is_initial sy rho0 ->
+    let en := enc_new sy nm in
+    let n := length frees in
+    let sc := script2 en n in
+    let trace := run_from sy rho0 frees in
+    let at_step := fun k => nth (N.to_nat k) trace env0 in
+    script_check [] sc = true ->
+    (forall nm' t e k, In (DeclareConst nm' t) sc -> k <= N.of_nat n ->
+        sig_sym en e k = Some (mk_sym nm' t) -> same_val sigma0 (mk_sym nm' t) (at_step k) e) ->
+    forall e k s, observable sy e -> k <= N.of_nat n -> get_signal_at en e k = Some s ->
+      same_val (script_eval sigma0 sc) s (at_step k) e.
+Proof. exact script2_faithful_sys. Qed.
+Print Assumptions C04_script2_faithful.
+
+(** the system of that finding: rejected with [script Fixed], accepted with [script2] *)
+Example C04_script2_example :
+  script_check [] (script2 (enc_new ex2_sys ex_nm) 2) = true /\
+  script_check [] (script Fixed (enc_new ex2_sys ex_nm) 0 2) = false.
+Proof. exact ex2_script2. Qed.
